@@ -508,7 +508,7 @@ fn build_f(n: &FNode) -> BoxFac {
 }
 
 fn build_static_f(k: u8) -> BoxFac {
-    match k % 6 {
+    match k % 8 {
         0 => boxed::factory(LeafFactory(0).and_then(LeafFactory(1)).map_init_err(tagf(41)).map(tagf(42))),
         1 => boxed::factory(apply(Tr { id: 3, tag: 43 }, LeafFactory(0).and_then(LeafFactory(1)))),
         2 => boxed::factory(map_config(
@@ -525,10 +525,13 @@ fn build_static_f(k: u8) -> BoxFac {
             }))
         }
         4 => boxed::factory(apply_cfg(Leaf(0), |cfg: u16, svc: &Leaf| ApplyCfgFut(Some(svc.clone().map(tagf(1000 + cfg)))))),
-        _ => boxed::factory(map_config(
+        5 => boxed::factory(map_config(
             Arc::new(fn_factory(|| LeafFactory(0).new_service(5)).and_then(map_config(LeafFactory(1), |_: ()| 6u16))),
             |_: u16| (),
         )),
+        // Transform behind Rc / Arc (the wrappers forward new_transform)
+        6 => boxed::factory(apply(Rc::new(Tr { id: 3, tag: 45 }), LeafFactory(0))),
+        _ => boxed::factory(apply(Arc::new(Tr { id: 3, tag: 47 }), LeafFactory(0).and_then(LeafFactory(1)))),
     }
 }
 
@@ -671,7 +674,7 @@ enum RefFut {
     AndThen(Box<RefFut>, Box<RefFut>, Option<Node>, Option<Node>),
     MapSvc(Box<RefFut>, fn(Node, u16) -> Node, u16),
     MapInitErr(Box<RefFut>, u16),
-    Transform(Option<Box<RefFut>>, usize, u16, Option<Node>, bool),
+    Transform(Option<Box<RefFut>>, usize, u16, Option<Node>),
     /// apply_cfg_factory: inner leaf factory, then wait for its readiness, then configure
     ApplyCfg(Option<Box<RefFut>>, Option<Node>, u16),
     Immediate(Node),
@@ -686,18 +689,20 @@ fn ref_of(n: &FNode, cfg: u16) -> RefFut {
         FNode::MapInitErrF(a, t) => RefFut::MapInitErr(Box::new(ref_of(a, cfg)), *t),
         FNode::MapConfigF(a, add) => ref_of(a, cfg + *add),
         FNode::ApplyFnF(a, t) => RefFut::MapSvc(Box::new(ref_of(a, cfg)), |n, t| Node::ApplyFn(Box::new(n), t), *t),
-        FNode::ApplyTransformF(id, t, a) => RefFut::Transform(Some(Box::new(ref_of(a, cfg))), *id, *t, None, false),
+        FNode::ApplyTransformF(id, t, a) => RefFut::Transform(Some(Box::new(ref_of(a, cfg))), *id, *t, None),
         FNode::BoxedF(a) | FNode::RcF(a) => ref_of(a, cfg),
         FNode::StaticF(k) => {
             use FNode::*;
             let l = |i| Box::new(LeafF(i));
-            match k % 6 {
+            match k % 8 {
                 0 => ref_of(&MapF(Box::new(MapInitErrF(Box::new(AndThenF(l(0), l(1))), 41)), 42), cfg),
                 1 => ref_of(&ApplyTransformF(3, 43, Box::new(AndThenF(l(0), l(1)))), cfg),
                 2 => ref_of(&AndThenF(l(0), l(1)), 7),
                 3 => RefFut::ApplyCfg(Some(Box::new(RefFut::Leaf(0, 9))), None, cfg),
                 4 => RefFut::Immediate(Node::Map(Box::new(Node::Leaf(0)), 1000 + cfg)),
-                _ => RefFut::AndThen(Box::new(RefFut::Leaf(0, 5)), Box::new(RefFut::Leaf(1, 6)), None, None),
+                5 => RefFut::AndThen(Box::new(RefFut::Leaf(0, 5)), Box::new(RefFut::Leaf(1, 6)), None, None),
+                6 => ref_of(&ApplyTransformF(3, 45, l(0)), cfg),
+                _ => ref_of(&ApplyTransformF(3, 47, Box::new(AndThenF(l(0), l(1)))), cfg),
             }
         }
     }
@@ -754,7 +759,7 @@ fn ref_poll(f: &mut RefFut, fstate: &dyn Fn(usize) -> Option<bool>, ready: &dyn 
             }
             r => r,
         },
-        RefFut::Transform(inner, id, t, got, _) => {
+        RefFut::Transform(inner, id, t, got) => {
             if got.is_none() {
                 match ref_poll(inner.as_mut().unwrap(), fstate, ready, started) {
                     Poll::Ready(Ok(n)) => {
@@ -801,7 +806,7 @@ fn note_started(f: &RefFut, started: &mut Vec<(usize, u16)>) {
             note_started(b, started);
         }
         RefFut::MapSvc(a, _, _) | RefFut::MapInitErr(a, _) => note_started(a, started),
-        RefFut::Transform(Some(a), _, _, None, _) => note_started(a, started),
+        RefFut::Transform(Some(a), _, _, None) => note_started(a, started),
         RefFut::ApplyCfg(Some(a), None, _) => note_started(a, started),
         _ => {}
     }
@@ -939,7 +944,7 @@ fn run_sim(prop: &str, cfg: &Config, ch: &mut Chooser<Action>, ctx: &mut RunCtx)
                 en.push((Action::AdvanceFact(*l), cfg.w_adv));
             }
             // readiness of leaf 0 matters to apply_cfg_factory
-            if matches!(cfg.ftree, FNode::StaticF(k) if k % 6 == 3) {
+            if matches!(cfg.ftree, FNode::StaticF(k) if k % 8 == 3) {
                 for (code, r) in [(0u8, R::Ok), (1, R::Pending), (2, R::Err)] {
                     if w(|x| x.leaves[0].ready) != r {
                         en.push((Action::SetReady(0, code), 1));
@@ -1367,7 +1372,7 @@ impl Engine for SvcSim {
         let leaves = rng.range(1, 4) as usize;
         let tree = if rng.chance(1, 8) { Node::Static(rng.below(5) as u8) } else { gen_node(rng, 3, leaves) };
         let mut next_leaf = 0;
-        let ftree = if rng.chance(1, 5) { FNode::StaticF(rng.below(6) as u8) } else { gen_fnode(rng, 3, &mut next_leaf, 8) };
+        let ftree = if rng.chance(1, 5) { FNode::StaticF(rng.below(8) as u8) } else { gen_fnode(rng, 3, &mut next_leaf, 8) };
         Config {
             factory_mode,
             tree,
